@@ -151,7 +151,37 @@ def build():
                   'if multi_card and ctx.expected_cardinality_one:': dict(assigns={}, modifies=[], raises=['ResultCardinalityMismatchError'])},
         hints={'ghost_out': ['gq']})
     w._caps = caps
+    build_volatility(w)
     return w
+
+VOLA = 'edb/edgeql/compiler/inference/volatility.py'
+
+def build_volatility(w):
+    """Link 0 of the chain: the volatility the compiler infers for an expression is at least the volatility of everything the expression reads.
+    `Modifying` / `Volatile` found anywhere below a pointer step has to survive to the top (a DML body hidden behind a computed link is still DML: the
+    capability flags and the no-DML-in-read-only checks are decided from this value).
+    V0(e) / V1(e): the pair the recursive inference returns for a sub-expression (induction hypothesis; uninterpreted)."""
+    w.enum('Vol', QLT, 'Volatility', ordered=True)
+    w.refclass('IrV', {'typeref': 'Obj', 'path_id': 'Obj'}, universal=False)
+    w.refclass('PRef', {'defined_here': 'bool'})
+    w.refclass('PtrIr', {'source': 'IrV', 'expr': 'Opt[IrV]', 'ptrref': 'PRef'})
+    w.refclass('VEnv', {'singletons': 'Set[Obj]'})
+    w.ufunc('V0', ['IrV'], 'Vol'); w.ufunc('V1', ['IrV'], 'Vol'); w.ufunc('ISOBJ', ['Obj'], 'bool')
+    PAIR = 'Tuple[Vol,Vol]'
+    IHV = dict(params={'ir': 'IrV', 'env': 'VEnv'}, returns=PAIR, ensures=['result[0] == V0(ir)', 'result[1] == V1(ir)'], modifies=[])
+    MAXE = lambda a, b: ['result[0] >= %s[0] and result[0] >= %s and (result[0] == %s[0] or result[0] == %s)' % (a, b % 0, a, b % 0),
+                         'result[1] >= %s[1] and result[1] >= %s and (result[1] == %s[1] or result[1] == %s)' % (a, b % 1, a, b % 1)]
+    MAX2 = dict(overloads=[dict(params={'args': 'Tuple[%s,%s]' % (PAIR, PAIR)}, returns=PAIR, ensures=MAXE('args[0]', 'args[1][%d]'), modifies=[]),
+                           dict(params={'args': 'Tuple[%s,Vol]' % PAIR}, returns=PAIR, ensures=MAXE('args[0]', 'args[1]' + ' ' * 0 + '%.0s'), modifies=[])], params={})
+    w.contract(VOLA, '_infer_pointer', params={'ir': 'PtrIr', 'env': 'VEnv'}, returns=PAIR,
+        ensures=['result[0] >= V0(ir.source) and result[1] >= V1(ir.source)',
+                 'implies(ir.expr is not None and not ir.ptrref.defined_here, result[0] >= V0(ir.expr) and result[1] >= V1(ir.expr))',
+                 'implies(ISOBJ(ir.source.typeref) and ir.source.path_id not in env.singletons, result[0] >= Vol.Stable and result[1] >= Vol.Stable)',
+                 # nothing is invented: the result is one of the contributing values
+                 'result[0] == V0(ir.source) or (ir.expr is not None and result[0] == V0(ir.expr)) or result[0] == Vol.Stable'],
+        modifies=[],
+        hints={'ext_funcs': {'_infer_volatility': IHV, '_max_volatility': MAX2,
+                             'irtyputils.is_object': dict(params={'t': 'Obj'}, returns='bool', returns_expr='ISOBJ(t)', modifies=[])}})
 
 # ---------------------------------------------------------------------------------------------------- ownership / dominance scans
 def _ob(oid, clause, ok, where=None, tag='property', kind='ownership', undecided=False):
